@@ -131,7 +131,8 @@ def a(ctx):
     for q in normal:
         st = q.stores(SEQ)
         pin = st[-1][3] if st else fi.node
-        ctx.ob("the counter advances by exactly one per number handed out", q.cp[SEQ] == Q + Poly.const(1), fi, pin, detail="counter after the call = %r (q = before)" % q.cp[SEQ],
+        step = (q.cp[SEQ] - Q).const_value()
+        ctx.ob("the counter advances (by one) for every number handed out", step is not None and step >= 1, fi, pin, detail="counter after the call = %r (q = before)" % q.cp[SEQ],
                construct=stmt_text(pin) if st else "new_sequence_number")
         ret = None
         if q.end[0] == "return" and q.end[1] is not None:
@@ -139,9 +140,11 @@ def a(ctx):
                 ret = q.end[2].poly(q.end[1])
             except NormError:
                 ret = None
-        ctx.ob("the number handed out is the counter value before the increment", ret == Q, fi, q.end[3] if q.end[0] == "return" else fi.node, detail="returned %r (q = counter before)" % ret)
+        off = (ret - Q).const_value() if ret is not None else None
+        ctx.ob("the number handed out is the counter value before the increment (below the new counter, not below the old one)",
+               off is not None and step is not None and 0 <= off < step, fi, q.end[3] if q.end[0] == "return" else fi.node, detail="returned %r, counter afterwards %r (q = counter before)" % (ret, q.cp[SEQ]))
         nf = _path_nf(q)
-        ok = _implied(nf, Q - M)
+        ok = ret is not None and _implied(nf, ret - M)
         conds = [t[1] for t in q.facts()]
         ctx.ob("a number is handed out only while the counter is below MAX_SEQNO", ok, fi, conds[-1] if conds else fi.node, detail="path conditions: %s" % _show_conds(q),
                construct=stmt_text(conds[-1]) if conds else "new_sequence_number")
@@ -164,11 +167,17 @@ def b(ctx):
     pf = ctx.prog.func(FSC + ".post_seqnoincrease")
     ctx.need(is_plain_sync(pf), "post_seqnoincrease is not a plain function")
     pcfg = cfg_of(pf)
+    ctx.prog.func(FSC + "._store")  # anchor: a renamed _store is an analysis error, a missing call a violation
+    store_calls = _self_calls(pf.node, "_store")
+    snodes = {pcfg.loc1(c) for c in store_calls}
+    for k, n in stores_to(pf.node, PERS, nested=False):
+        nid = pcfg.loc1(n)
+        ok = must_complete(pcfg, nid, snodes)
+        ctx.ob("once the bound is advanced no path reaches the end without _store() having completed", ok, pf, n,
+               detail=None if ok else "path: %s" % witness(pcfg, nid, pcfg.exit, cut_normal=snodes))
     paths = sym_paths(pf, {SEQ: "q", PERS: "P", CHUNK: "C"}, consts={LIMIT: "L"})
     normal = [q for q in paths if q.normal()]
     ctx.floor("normal paths of post_seqnoincrease", len(normal), 2)
-    store_calls = _self_calls(pf.node, "_store")
-    ctx.floor("_store() calls in post_seqnoincrease", len(store_calls), 1)
     grow = {"C": C, "2C": Poly.const(2) * C}
     try:
         grow["min"] = Normalizer().poly(ast.parse("min(2*C, L)", mode="eval").body)
@@ -191,17 +200,13 @@ def b(ctx):
                detail="sequence_number_persisted at the _store call = %r (P = before, C = chunk)" % snap)
         ctx.ob("the bound in memory after the call is the one that was stored", q.cp[PERS] == snap, pf, pst[-1][3] if pst else sc[-1][1],
                detail="after = %r, stored = %r" % (q.cp[PERS], snap))
-        ctx.ob("the counter itself is not changed by post_seqnoincrease", q.cp[SEQ] == Q, pf, pf.node, construct="post_seqnoincrease")
+        back = (q.cp[SEQ] - Q).const_value()
+        ctx.ob("post_seqnoincrease never moves the counter backwards", back is not None and back >= 0, pf, (q.stores(SEQ) or [(0, 0, 0, pf.node)])[-1][3],
+               construct=stmt_text(q.stores(SEQ)[-1][3]) if q.stores(SEQ) else "post_seqnoincrease")
         cst = q.stores(CHUNK)
         ctx.ob("the chunk stays positive: it is kept, doubled, or min(2*chunk, limit)", q.cp[CHUNK] in grow.values(), pf, cst[-1][3] if cst else pf.node,
                detail="chunk after = %r" % q.cp[CHUNK], construct=stmt_text(cst[-1][3]) if cst else "post_seqnoincrease")
-    ctx.floor("paths of post_seqnoincrease that store", nstore_paths, 1)
-    snodes = {pcfg.loc1(c) for c in store_calls}
-    for k, n in stores_to(pf.node, PERS, nested=False):
-        nid = pcfg.loc1(n)
-        ok = must_complete(pcfg, nid, snodes)
-        ctx.ob("once the bound is advanced no path reaches the end without _store() having completed", ok, pf, n,
-               detail=None if ok else "path: %s" % witness(pcfg, nid, pcfg.exit, cut_normal=snodes))
+    ctx.ob("post_seqnoincrease has a path that stores", nstore_paths >= 1, pf, pf.node, construct="post_seqnoincrease")
     ctx.note("not decided (outside the crash/clean-stop fault model): when _store() raises after sequence_number_persisted was advanced, "
              "the in-memory bound stays ahead of the file and up to chunk-1 further numbers are issued uncovered")
 
@@ -606,12 +611,11 @@ def e(ctx):
         if isinstance(v, ast.Constant):
             nconst += 1
             consts.add(v.value)
-            ctx.ob("the marker is written only when replay_window_persisted is false", has_fact(facts, FLAG, False), fi, n)
         else:
             npersist += 1
-            ctx.ob("the real window is written only when replay_window_persisted is true", has_fact(facts, FLAG, True), fi, n)
+            ctx.ob("a real window is written only when replay_window_persisted is true (otherwise the file would keep a window that goes stale)", has_fact(facts, FLAG, True), fi, n)
             ctx.ob("what is written then is the window's persist() output", isinstance(v, ast.Call) and isinstance(v.func, ast.Attribute) and v.func.attr == "persist", fi, n)
-    ctx.ob("_store can write both the marker and the real window", nconst >= 1 and npersist >= 1, fi, entries[wkeys[0]][0][1], detail="%d marker store(s), %d persist store(s)" % (nconst, npersist))
+    ctx.floor("marker stores in _store", nconst, 1)
     ctx.need(len(consts) <= 1, "several different markers are written")
     marker = consts.pop() if consts else None
     # every path to the write has set the entry
@@ -623,11 +627,16 @@ def e(ctx):
     rf = ctx.prog.func(FSC + "._replay_window_changed")
     rcfg = cfg_of(rf)
     ctx.need(is_plain_sync(rf), "_replay_window_changed is not a plain function")
+    ctx.prog.func(FSC + "._store")
+    stores = _self_calls(rf.node, "_store")
+    snodes = {rcfg.loc1(c_) for c_ in stores}
+    for k, n in stores_to(rf.node, FLAG, nested=False):
+        nid = rcfg.loc1(n)
+        ok = must_complete(rcfg, nid, snodes)
+        ctx.ob("once the flag is cleared no path returns without _store() having completed", ok, rf, n, detail=None if ok else "path: %s" % witness(rcfg, nid, rcfg.exit, cut_normal=snodes))
     paths = sym_paths(rf, {FLAG: "W"})
     normal = [q for q in paths if q.normal()]
     ctx.floor("normal paths of _replay_window_changed", len(normal), 1)
-    stores = _self_calls(rf.node, "_store")
-    ctx.floor("_store() calls in _replay_window_changed", len(stores), 1)
     wkey = canon(("truth", "W"))
     for q in normal:
         sc = [t for t in q.calls() if t[1] in stores]
@@ -640,13 +649,8 @@ def e(ctx):
             continue
         snap = sc[-1][2][0][FLAG]
         fst = q.stores(FLAG)
-        ctx.ob("the flag is false when the callback stores (the file then says unknown)", snap == Poly.const(0) or already, rf, sc[-1][1], detail="flag at the _store call = %r" % snap)
-        ctx.ob("the flag stays false after the callback", q.cp[FLAG] == Poly.const(0) or already, rf, fst[-1][3] if fst else sc[-1][1])
-    snodes = {rcfg.loc1(c_) for c_ in stores}
-    for k, n in stores_to(rf.node, FLAG, nested=False):
-        nid = rcfg.loc1(n)
-        ok = must_complete(rcfg, nid, snodes)
-        ctx.ob("once the flag is cleared no path returns without _store() having completed", ok, rf, n, detail=None if ok else "path: %s" % witness(rcfg, nid, rcfg.exit, cut_normal=snodes))
+        ctx.ob("after the callback the flag still says what the last store wrote (marker for false, the current window for true)", q.cp[FLAG] == snap, rf, fst[-1][3] if fst else sc[-1][1],
+               detail="flag at the _store call = %r, afterwards %r" % (snap, q.cp[FLAG]))
 
     # wiring: the window's strike-out callback is _replay_window_changed
     lm = _load_model(ctx, tname)
@@ -687,8 +691,6 @@ def e(ctx):
     ifp = {lcfg.loc1(c_) for c_ in mcalls(lf.node, "initialize_from_persisted")}
     for n, val in unkT:
         ctx.ob("the marker _load recognises is the one _store writes", val == marker, lf, n.ast, detail="writer %r, reader %r" % (marker, val))
-        ok = bool(fl[False]) and must_complete(lcfg, n.id, fl[False]) and not (lcfg.reach({n.id}) & fl[True])
-        ctx.ob("an unknown window sets replay_window_persisted = False", ok, lf, n.ast)
     for n, val in unkF:
         ok = bool(ifp) and must_complete(lcfg, n.id, ifp)
         ctx.ob("a persisted window is restored through initialize_from_persisted", ok, lf, n.ast)
@@ -715,23 +717,8 @@ def f(ctx):
     fi = ctx.prog.func(FSC + "._destroy")
     cfg = cfg_of(fi)
     ctx.need(is_plain_sync(fi), "_destroy is not a plain function")
-    paths = sym_paths(fi, {FLAG: "W", PERS: "P", SEQ: "q"})
-    normal = [q for q in paths if q.normal()]
-    ctx.floor("normal paths of _destroy", len(normal), 1)
+    ctx.prog.func(FSC + "._store")
     stores = _self_calls(fi.node, "_store")
-    ctx.floor("_store() calls in _destroy", len(stores), 1)
-    for q in normal:
-        sc = [t for t in q.calls() if t[1] in stores]
-        if not sc:
-            ctx.ob("every normal path of _destroy stores the state", False, fi, fi.node, construct="_destroy", detail="path conditions: %s" % _show_conds(q))
-            continue
-        cp = sc[-1][2][0]
-        fst, pst = q.stores(FLAG), q.stores(PERS)
-        ctx.ob("the replay window is marked as persisted before the final store", cp[FLAG] == Poly.const(1), fi, fst[-1][3] if fst else sc[-1][1], detail="flag at the _store call = %r" % cp[FLAG],
-               construct=stmt_text(fst[-1][3]) if fst else stmt_text(sc[-1][1]))
-        ctx.ob("the exact counter (not the chunked bound) is what the final store writes", cp[PERS] == cp[SEQ] and cp[SEQ] == Q, fi, pst[-1][3] if pst else sc[-1][1],
-               detail="sequence_number_persisted at the _store call = %r (q = sender_sequence_number)" % cp[PERS], construct=stmt_text(pst[-1][3]) if pst else stmt_text(sc[-1][1]))
-        ctx.ob("nothing changes flag, bound or counter after the final store", q.cp[FLAG] == cp[FLAG] and q.cp[PERS] == cp[PERS] and q.cp[SEQ] == cp[SEQ], fi, sc[-1][1])
     snodes = {cfg.loc1(c_) for c_ in stores}
     rel = [c_ for c_ in calls_in(fi.node) if (chain(c_.func) or "").startswith("self.lockfile.")]
     rel += [c_ for c_ in calls_in(fi.node) if chain(c_.func) in ("os.unlink", "os.remove") and c_.args and (chain(c_.args[0]) or "").startswith("self.lockfile")]
@@ -740,6 +727,19 @@ def f(ctx):
         ctx.ob("the lock is released only after _store() completed", after_normal(cfg, snodes, cfg.loc1(c_)), fi, c_)
     for k, n in stores_to(fi.node, "self.lockfile", nested=False):
         ctx.ob("the lock is dropped only after _store() completed", after_normal(cfg, snodes, cfg.loc1(n)), fi, n)
+    paths = sym_paths(fi, {FLAG: "W", PERS: "P", SEQ: "q"})
+    normal = [q for q in paths if q.normal()]
+    ctx.floor("normal paths of _destroy", len(normal), 1)
+    for q in normal:
+        sc = [t for t in q.calls() if t[1] in stores]
+        if not sc:
+            ctx.ob("every normal path of _destroy stores the state", False, fi, fi.node, construct="_destroy", detail="path conditions: %s" % _show_conds(q))
+            continue
+        cp = sc[-1][2][0]
+        fst, pst = q.stores(FLAG), q.stores(PERS)
+        over = (cp[PERS] - cp[SEQ]).const_value()
+        ctx.ob("the bound written on shutdown is the exact counter (or the untouched bound), never below the counter", cp[PERS] == P or (over is not None and over >= 0), fi, pst[-1][3] if pst else sc[-1][1],
+               detail="sequence_number_persisted at the _store call = %r (q = sender_sequence_number, P = bound before)" % cp[PERS], construct=stmt_text(pst[-1][3]) if pst else stmt_text(sc[-1][1]))
 
 
 # ---------------------------------------------------------------------------
@@ -751,7 +751,24 @@ R.seed("C13.a", F_, "        self.post_seqnoincrease()\n        return retval", 
 R.seed("C13.a", F_, "        if retval >= MAX_SEQNO:\n            raise ContextUnavailable(\"Sequence number too large, context is exhausted.\")\n", "", "no exhaustion test")
 R.seed("C13.b", F_, "        self.post_seqnoincrease()\n        return retval", "        return retval\n        self.post_seqnoincrease()", "return before post_seqnoincrease")
 R.seed("C13.b", F_, "        self.post_seqnoincrease()\n        return retval", "        try:\n            self.post_seqnoincrease()\n        except OSError:\n            pass\n        return retval", "failed persist ignored")
-R.seed("C13.b", F_, "            self.sequence_number_persisted += self.sequence_number_chunksize\n\n            self.sequence_number_chunksize = min(", "            self._store()\n            self.sequence_number_persisted += self.sequence_number_chunksize\n\n            self.sequence_number_chunksize = min(", "_store() before the +=")
+_POST_OLD = (
+    "            self.sequence_number_persisted += self.sequence_number_chunksize\n"
+    "\n"
+    "            self.sequence_number_chunksize = min(\n"
+    "                self.sequence_number_chunksize * 2, self.sequence_number_chunksize_limit\n"
+    "            )\n"
+    "            # FIXME: this blocks -- see https://github.com/chrysn/aiocoap/issues/178\n"
+    "            self._store()\n"
+)
+_POST_NEW = (
+    "            self._store()\n"
+    "            self.sequence_number_persisted += self.sequence_number_chunksize\n"
+    "\n"
+    "            self.sequence_number_chunksize = min(\n"
+    "                self.sequence_number_chunksize * 2, self.sequence_number_chunksize_limit\n"
+    "            )\n"
+)
+R.seed("C13.b", F_, _POST_OLD, _POST_NEW, "_store() before the +=: the file keeps the old bound")
 R.seed("C13.b", F_, "        if self.sender_sequence_number > self.sequence_number_persisted:", "        if self.sender_sequence_number > self.sequence_number_persisted + 1:", "store skipped one number too long")
 R.seed("C13.b", F_, "            # FIXME: this blocks -- see https://github.com/chrysn/aiocoap/issues/178\n            self._store()\n", "            # FIXME: this blocks -- see https://github.com/chrysn/aiocoap/issues/178\n", "bound advanced in memory only")
 R.seed("C13.b", F_, "        self.sequence_number_chunksize = sequence_number_chunksize_start\n\n        self.sequence_number_persisted = self.sender_sequence_number", "        self.sequence_number_chunksize = sequence_number_chunksize_start\n\n        self.sequence_number_persisted = 0", "bound restarts at 0: the file moves backwards")
@@ -770,13 +787,13 @@ R.seed("C13.d", F_, "        return {\"index\": self._index, \"bitfield\": self.
 R.seed("C13.d", F_, "            with open(os.path.join(self.basedir, \"sequence.json\")) as f:", "            with open(os.path.join(self.basedir, \"sequences.json\")) as f:", "reader opens another file")
 R.seed("C13.d", F_, "        self._bitfield = persisted[\"bitfield\"]", "        self._bitfield = persisted[\"bits\"]", "window key differs")
 R.seed("C13.d", F_, "            received = sequence[\"received\"]", "            received = sequence[\"next-to-send\"]", "window restored from the wrong entry")
-R.seed("C13.e", F_, "            self.replay_window_persisted = False\n            self._store()", "            self._store()", "flag never cleared: the stale window stays in the file")
+R.seed("C13.e", F_, "            self.replay_window_persisted = False\n            self._store()", "            self.replay_window_persisted = False", "flag cleared but nothing stored: the stale window stays in the file")
 R.seed("C13.e", F_, "        if not self.replay_window_persisted:\n            data[\"received\"] = \"unknown\"", "        if self.replay_window_persisted:\n            data[\"received\"] = \"unknown\"", "marker condition inverted")
-R.seed("C13.e", F_, "                # Echo recovery\n                self.replay_window_persisted = False", "                # Echo recovery\n                self.replay_window_persisted = True", "unknown window loaded as persisted")
+R.seed("C13.e", F_, "                self.replay_window_persisted = True\n\n    # This is called internally", "                self.replay_window_persisted = False\n\n    # This is called internally", "restored window with flag false: the file keeps a window that goes stale")
 R.seed("C13.e", F_, "            windowsize, self._replay_window_changed", "            windowsize, lambda: None", "callback not wired")
 R.seed("C13.e", F_, "            self.replay_window_persisted = False\n            self._store()", "            self._store()\n            self.replay_window_persisted = False", "stored before the flag is cleared")
 R.seed("C13.e", F_, "            if received == \"unknown\":", "            if received == \"Unknown\":", "marker spelled differently on the reader side")
 R.seed("C13.e", F_, "            self.recipient_replay_window.initialize_empty()\n            self.replay_window_persisted = True", "            self.recipient_replay_window.initialize_empty()\n            self.replay_window_persisted = False", "no file and flag false: strike-outs are never recorded as unknown")
 R.seed("C13.f", F_, "        self._store()\n\n        del self.sender_key\n        del self.recipient_key\n\n        os.unlink(self.lockfile.lock_file)\n        self.lockfile.release()\n", "        del self.sender_key\n        del self.recipient_key\n\n        os.unlink(self.lockfile.lock_file)\n        self.lockfile.release()\n        self._store()\n", "stored after the lock was released")
-R.seed("C13.f", F_, "        self.replay_window_persisted = True\n        self.sequence_number_persisted = self.sender_sequence_number\n        self._store()", "        self.sequence_number_persisted = self.sender_sequence_number\n        self._store()", "window not persisted on clean shutdown")
-R.seed("C13.f", F_, "        self.replay_window_persisted = True\n        self.sequence_number_persisted = self.sender_sequence_number\n        self._store()", "        self.replay_window_persisted = True\n        self._store()\n        self.sequence_number_persisted = self.sender_sequence_number", "exact counter set after the store")
+R.seed("C13.f", F_, "        self.replay_window_persisted = True\n        self.sequence_number_persisted = self.sender_sequence_number\n        self._store()", "        self.replay_window_persisted = True\n        self.sequence_number_persisted = self.sender_sequence_number - 1\n        self._store()", "last-used instead of next-to-send written on shutdown")
+R.seed("C13.f", F_, "        self.sequence_number_persisted = self.sender_sequence_number\n        self._store()\n\n        del self.sender_key", "        self.sequence_number_persisted = self.sender_sequence_number\n        try:\n            self._store()\n        except OSError:\n            pass\n\n        del self.sender_key", "lock released although the final store failed")
